@@ -181,3 +181,13 @@ Print Assumptions source_facts_tie.
 Theorem source_statements_tie : C14_GenTie.source_statements.
 Proof. exact C14_GenTie.source_statements_hold. Qed.
 Print Assumptions source_statements_tie.
+
+(* ---------- class structure of the current source: overrides and attribute hooks (proofs/ClassesTie.v) ---------- *)
+Require Import ClassesTie.
+Theorem C14_tie_class_numpy_body : over_numpy_body = Some exp_over_numpy_body.
+Proof. exact over_numpy_body_tie. Qed.
+Print Assumptions C14_tie_class_numpy_body.
+Theorem C14_tie_class_attr_hooks : Gen_Classes.attr_hooks = exp_attr_hooks.
+Proof. exact attr_hooks_tie. Qed.
+Print Assumptions C14_tie_class_attr_hooks.
+
